@@ -145,7 +145,7 @@ static Case gen_case() {
       case 4: p.k = "dup"; p.a = {pick(0, 3), one_of<long>({0, 0, 2, 5, -1}), pick(0, 2), chance(25), /*absolute-path flag unused*/ 0}; break;
       case 5: {
         p.k = "open";
-        p.a = {pick(0, 3)};
+        p.a = {pick(0, 3), chance(25)};
         p.spec.kind = weighted({55, 15, 15, 15});
         static const char *ks[] = {"a", "c", "f", "", "m", "b", "zz"};
         p.spec.a = ks[pick(0, 6)];
@@ -156,7 +156,7 @@ static Case gen_case() {
       case 6: p.k = "next"; p.a = {pick(0, 3), pick(1, 4)}; break;
       case 7: p.k = "close"; p.a = {pick(0, 3)}; break;
       case 8: p.k = "destroy"; p.a = {pick(0, 3)}; break;
-      case 9: p.k = "read"; p.a = {pick(0, 3)}; break;
+      case 9: p.k = "read"; p.a = {pick(0, 3), chance(25)}; break;
       default: p.k = chance(55) ? "rmfile" : "mkfile"; p.a = {pick(0, NTABLES - 1)}; break;
     }
     c.ops.push_back(p);
@@ -173,6 +173,7 @@ struct Handle {
   bool alive = false;
 };
 struct OpenIt {
+  struct mtbl_merger *mg = nullptr;  // non-NULL: the iterator was opened through an application-level merger over the fileset source
   struct mtbl_iter *it = nullptr;
   int h = 0;
   IterSpec spec;
@@ -377,7 +378,34 @@ static Result run_case(const Case &c) {
         int h = live(A(0));
         reload_point(h, false);
         IterSpec sp = op.k == "open" ? op.spec : IterSpec();
-        struct mtbl_iter *it = open_iter(mtbl_fileset_source(hs[(size_t)h].fs), sp);
+        // A(1) odd: the application puts the fileset source into a merger of its own and iterates that (a fileset is a
+        // source like any other).  What comes out must be the same, and the fileset must see its iterators come and go.
+        bool via = A(1) % 2 == 1;
+        struct mtbl_merger *omg = nullptr;
+        struct mtbl_iter *it = nullptr;
+        if (via) {
+          struct mtbl_merger_options *mo = mtbl_merger_options_init();
+          mtbl_merger_options_set_merge_func(mo, concat_merge, &mc);
+          omg = mtbl_merger_init(mo);
+          mtbl_merger_options_destroy(&mo);
+          mtbl_merger_add_source(omg, mtbl_fileset_source(hs[(size_t)h].fs));
+          it = open_iter(mtbl_merger_source(omg), sp);
+          r.tag("opened_through_an_outer_merger");
+        } else it = open_iter(mtbl_fileset_source(hs[(size_t)h].fs), sp);
+        if (!it && via) {
+          // a merger may answer "nothing there" with a NULL iterator: an observation of the empty result, nothing stays open
+          std::set<Cand> ok;
+          for (auto &cd : cands)
+            if (model_result(content(cd, hs[(size_t)h]), sp).empty()) ok.insert(cd);
+          mtbl_merger_destroy(&omg);
+          if (ok.empty()) {
+            r.failf("op %zu: the outer merger over handle %d returned a NULL iterator although every permitted state holds matching entries (permitted: %s)", oi, h, describe(cands).c_str());
+            break;
+          }
+          cands = ok;
+          reload_point(h, false);
+          continue;
+        }
         if (!it) {
           r.failf("op %zu: fileset source returned a NULL iterator", oi);
           break;
@@ -386,6 +414,7 @@ static Result run_case(const Case &c) {
         hs[(size_t)h].open_iters++;
         OpenIt o;
         o.it = it;
+        o.mg = omg;
         o.h = h;
         o.spec = sp;
         o.alive = true;
@@ -416,6 +445,7 @@ static Result run_case(const Case &c) {
           hs[(size_t)h].open_iters--;
           reload_point(h, false);  // closing an iterator is a reload point for its handle
           mtbl_iter_destroy(&its.back().it);
+          if (its.back().mg) mtbl_merger_destroy(&its.back().mg);
         }
       } else if (op.k == "next") {
         int i = live_it(A(0));
@@ -454,6 +484,7 @@ static Result run_case(const Case &c) {
         hs[(size_t)o.h].open_iters--;
         reload_point(o.h, false);
         mtbl_iter_destroy(&o.it);
+        if (o.mg) mtbl_merger_destroy(&o.mg);
       } else if (op.k == "destroy") {
         int h = live(A(0));
         int alive = 0;
@@ -465,7 +496,10 @@ static Result run_case(const Case &c) {
       }
     }
     for (auto &o : its)
-      if (o.alive) mtbl_iter_destroy(&o.it);
+      if (o.alive) {
+        mtbl_iter_destroy(&o.it);
+        if (o.mg) mtbl_merger_destroy(&o.mg);
+      }
     for (auto &h : hs)
       if (h.alive) mtbl_fileset_destroy(&h.fs);
     rm_rf(dir);
